@@ -329,3 +329,86 @@ Print Assumptions C12_tie_linear_extract_sim_full.
 Theorem C12_tie_linear_extract_calls_translated_from : ltac:(let t := type of @SrcTie3Linear.linear_extract_calls_translated_from in exact t).
 Proof. exact (@SrcTie3Linear.linear_extract_calls_translated_from). Qed.
 Print Assumptions C12_tie_linear_extract_calls_translated_from.
+(* ================= work package `carry2`: linear = per file, GENERATED code on every side =================
+   An archive written by the TRANSLATED ArchiveWriter (CarryWriter.src_wrun), behind any stream refining a cursor
+   over its bytes: the TRANSLATED helpers::linear_extract (gen/Src3l.v), for ANY export list, returns Ok, keeps the
+   keys of `export`, hands nothing to names not chosen or never started, and hands to every chosen started file
+   EXACTLY what the TRANSLATED get_file reports and the TRANSLATED BlocksToFileReader::read returns for it with any
+   positive buffer sizes (gen/Src3d.v), from any reader holding the footer (theories/Carry2Misc.v: composition of
+   C12_linear_delivers_written_src with CarryReader.get_file_read_src). *)
+From MLA Require SrcTie2 SrcTie3ReaderRT CarryWriter CarryReader Carry2Misc.
+From MLAGen Require Src2.
+Theorem C12_linear_equals_per_file_src :
+  forall FNMAX TS TC TA TE (H : bytes -> bytes) (order : footer -> footer) site_index,
+  tags_distinct TS TC TA TE -> (forall x, len (H x) = 32) -> (forall f, Permutation (order f) f) ->
+  forall ops (sf : Src2.ArchiveWriter) rs,
+  CarryWriter.src_wrun (LIM := Src3d.BINCODE_MAX_DESERIALIZE) FNMAX TS TC TA TE H order CarryWriter.aw0 (ops ++ [OFinalize]) = (sf, rs) ->
+  Forall (fun r => is_ok r = true) rs -> forallb op_utf8 ops = true ->
+  len (Src2.dest sf) < 2 ^ 64 -> len (ser_footer_map (order (w_footer (SrcTie2.absW sf)))) < 2 ^ 32 ->
+  forall (S : Stream) (R : st S -> N -> Prop), Refines S (Src2.dest sf) R ->
+  forall (ar ar2 : Src3d.ArchiveReader S) (export : list bytes) (fuel : nat),
+  CarryReader.SrcRS order sf S R ar -> CarryReader.SrcRS order sf S R ar2 -> (N.to_nat (len (Src2.dest sf)) < fuel)%nat ->
+  exists out,
+    Src3l.linear_extract S FNMAX TS TC TA TE fuel ar (Src3l.mkExport export []) = (Src3l.mkExport export out, Ok tt) /\
+    chosen_only export out /\
+    (forall name, ~ In name (map fst (started 0 ops)) -> delivered name out = []) /\
+    forall name id, In (name, id) (started 0 ops) -> name_in export name = true ->
+      exists fi, flookup (order (w_footer (SrcTie2.absW sf))) name = Some fi /\
+      forall sizes : nat -> N, (forall i, 0 < sizes i) ->
+      forall zf fuel2 F : nat, (length (pieces 0 id ops) < fuel2)%nat ->
+        (Datatypes.S zf * Datatypes.S (Datatypes.S (length (fi_offsets fi))) <= F)%nat ->
+        exists ar' x x',
+          Src3d.get_file S FNMAX TS TC TA TE site_index ar2 name = (ar', Ok (Some (name, x, len (delivered name out)))) /\
+          SrcTie3ReaderRT.g_read_all S FNMAX TS TC TA TE site_index F fuel2 x sizes 0%nat [] = (x', Ok (delivered name out)).
+Proof. exact Carry2Misc.linear_equals_per_file_src. Qed.
+
+(* non-vacuity THROUGH THE GENERATED CODE: two interleaved files written by the translated writer; translated
+   linear_extract choosing {a} against translated get_file + read with 2-byte buffers *)
+Definition c2_H (x : bytes) : bytes := map (fun i => (len x + 5 * N.of_nat i) mod 256) (seq 0 32).
+Lemma c2_H_len x : len (c2_H x) = 32.
+Proof. unfold c2_H, len. rewrite map_length, seq_length. reflexivity. Qed.
+Definition c2_ops : list wop := [OStart [97]; OAppend 0 3 [1; 2; 3]; OAdd [98] 2 [9; 8]; OFlush; OAppend 0 2 [4; 5]; OEnd 0].
+Definition c2_sf : Src2.ArchiveWriter :=
+  fst (CarryWriter.src_wrun (LIM := Src3d.BINCODE_MAX_DESERIALIZE) 48 0 1 254 255 c2_H (fun f => f) CarryWriter.aw0 (c2_ops ++ [OFinalize])).
+Example C12_example_linear_equals_per_file_src_computed :
+  match CarryReader.src_open (Cursor (Src2.dest c2_sf)) 0 with
+  | Ok ar =>
+    match Src3l.linear_extract _ 48 0 1 254 255 300 ar (Src3l.mkExport [[97]] []) with
+    | (ex, Ok _) =>
+      Src3l.ex_keys ex = [[97]] /\ delivered [97] (Src3l.ex_log ex) = [1; 2; 3; 4; 5] /\ delivered [98] (Src3l.ex_log ex) = [] /\
+      match Src3d.get_file _ 48 0 1 254 255 0 ar [97] with
+      | (_, Ok (Some (_, x, sz))) =>
+        sz = 5 /\ snd (SrcTie3ReaderRT.g_read_all _ 48 0 1 254 255 0 20 10 x (fun _ => 2) 0%nat []) = Ok (delivered [97] (Src3l.ex_log ex))
+      | _ => False
+      end
+    | _ => False
+    end
+  | _ => False
+  end.
+Proof. vm_compute. repeat split; reflexivity. Qed.
+Example C12_example_linear_equals_per_file_src_premises :
+  exists ar out, CarryReader.src_open (Cursor (Src2.dest c2_sf)) 0 = Ok ar /\
+    Src3l.linear_extract _ 48 0 1 254 255 300 ar (Src3l.mkExport [[97]] []) = (Src3l.mkExport [[97]] out, Ok tt) /\
+    exists ar' x x', Src3d.get_file _ 48 0 1 254 255 0 ar [97] = (ar', Ok (Some ([97], x, len (delivered [97] out)))) /\
+      SrcTie3ReaderRT.g_read_all _ 48 0 1 254 255 0 20 10 x (fun _ => 2) 0%nat [] = (x', Ok (delivered [97] out)).
+Proof.
+  assert (Hrun : CarryWriter.src_wrun (LIM := Src3d.BINCODE_MAX_DESERIALIZE) 48 0 1 254 255 c2_H (fun f => f) CarryWriter.aw0 (c2_ops ++ [OFinalize]) = (c2_sf, repeat (Ok 0) 7))
+    by (vm_compute; reflexivity).
+  assert (Ht : tags_distinct 0 1 254 255) by (vm_compute; repeat split; discriminate).
+  destruct (CarryReader.open_src 48 0 1 254 255 c2_H (fun f => f) c2_H_len (fun f => Permutation_refl f) c2_ops c2_sf _ Hrun
+              ltac:(repeat constructor) ltac:(vm_compute; reflexivity) ltac:(vm_compute; reflexivity) ltac:(vm_compute; reflexivity)
+              (Cursor (Src2.dest c2_sf)) _ (cursor_refines _) 0 0 ltac:(split; [reflexivity | apply N.le_0_l])) as (ar & Ho & Har).
+  destruct (C12_linear_equals_per_file_src 48 0 1 254 255 c2_H (fun f => f) 0 Ht c2_H_len (fun f => Permutation_refl f)
+              c2_ops c2_sf _ Hrun ltac:(repeat constructor) ltac:(vm_compute; reflexivity) ltac:(vm_compute; reflexivity)
+              ltac:(vm_compute; reflexivity) (Cursor (Src2.dest c2_sf)) _ (cursor_refines _) ar ar [[97]] 300%nat Har Har
+              ltac:(vm_compute; lia)) as (out & Hl & _ & _ & Hf).
+  exists ar, out. split; [exact Ho|]. split; [exact Hl|].
+  destruct (Hf [97] 0 ltac:(vm_compute; auto) ltac:(vm_compute; reflexivity)) as (fi & Hlk & Hrd).
+  assert (Hoffs : (length (fi_offsets fi) <= 4)%nat).
+  { assert (Hv : match flookup (w_footer (SrcTie2.absW c2_sf)) [97] with Some fi' => (length (fi_offsets fi') <= 4)%nat | None => True end)
+      by (vm_compute; lia).
+    rewrite Hlk in Hv. exact Hv. }
+  refine (Hrd (fun _ => 2) (fun _ => eq_refl) 2%nat 10%nat 20%nat _ _); [vm_compute; lia | lia].
+Qed.
+Print Assumptions C12_linear_equals_per_file_src.
+Print Assumptions C12_example_linear_equals_per_file_src_premises.
